@@ -844,6 +844,7 @@ func (cat *Catalog) WriteCatalogToWriter(writer io.Writer) error {
 	}
 
 	// For each meta.. write them down
+	{ cat := simCatView(cat) // verif hook: identity unless built with -tags verif
 	for key, value := range cat.Data {
 
 		// Write the AST ID
@@ -866,6 +867,7 @@ func (cat *Catalog) WriteCatalogToWriter(writer io.Writer) error {
 			return err
 		}
 	}
+	} // verif hook: end of block opened above
 
 	// Write the MemoryName version.
 	err = WriteStringToWriter(writer, cat.MemoryName)
@@ -887,6 +889,7 @@ func (cat *Catalog) WriteCatalogToWriter(writer io.Writer) error {
 
 		return err
 	}
+	{ cat := simCatView(cat) // verif hook: identity unless built with -tags verif
 	for key, value := range cat.MemoryVariableSnapshotMap {
 		err = WriteStringToWriter(writer, key)
 		if err != nil {
@@ -899,6 +902,7 @@ func (cat *Catalog) WriteCatalogToWriter(writer io.Writer) error {
 			return err
 		}
 	}
+	} // verif hook: end of block opened above
 
 	// MemoryExpressionSnapshotMap meta counts.
 	err = WriteIntToWriter(writer, uint64(len(cat.MemoryExpressionSnapshotMap)))
@@ -906,6 +910,7 @@ func (cat *Catalog) WriteCatalogToWriter(writer io.Writer) error {
 
 		return err
 	}
+	{ cat := simCatView(cat) // verif hook: identity unless built with -tags verif
 	for key, value := range cat.MemoryExpressionSnapshotMap {
 		err = WriteStringToWriter(writer, key)
 		if err != nil {
@@ -918,6 +923,7 @@ func (cat *Catalog) WriteCatalogToWriter(writer io.Writer) error {
 			return err
 		}
 	}
+	} // verif hook: end of block opened above
 
 	// MemoryExpressionAtomSnapshotMap meta counts.
 	err = WriteIntToWriter(writer, uint64(len(cat.MemoryExpressionAtomSnapshotMap)))
@@ -925,6 +931,7 @@ func (cat *Catalog) WriteCatalogToWriter(writer io.Writer) error {
 
 		return err
 	}
+	{ cat := simCatView(cat) // verif hook: identity unless built with -tags verif
 	for key, value := range cat.MemoryExpressionAtomSnapshotMap {
 		err = WriteStringToWriter(writer, key)
 		if err != nil {
@@ -937,6 +944,7 @@ func (cat *Catalog) WriteCatalogToWriter(writer io.Writer) error {
 			return err
 		}
 	}
+	} // verif hook: end of block opened above
 
 	// MemoryExpressionVariableMap meta counts.
 	err = WriteIntToWriter(writer, uint64(len(cat.MemoryExpressionVariableMap)))
@@ -944,6 +952,7 @@ func (cat *Catalog) WriteCatalogToWriter(writer io.Writer) error {
 
 		return err
 	}
+	{ cat := simCatView(cat) // verif hook: identity unless built with -tags verif
 	for key, value := range cat.MemoryExpressionVariableMap {
 		err = WriteStringToWriter(writer, key)
 		if err != nil {
@@ -963,6 +972,7 @@ func (cat *Catalog) WriteCatalogToWriter(writer io.Writer) error {
 			}
 		}
 	}
+	} // verif hook: end of block opened above
 
 	// MemoryExpressionAtomVariableMap meta counts.
 	err = WriteIntToWriter(writer, uint64(len(cat.MemoryExpressionAtomVariableMap)))
@@ -970,6 +980,7 @@ func (cat *Catalog) WriteCatalogToWriter(writer io.Writer) error {
 
 		return err
 	}
+	{ cat := simCatView(cat) // verif hook: identity unless built with -tags verif
 	for key, value := range cat.MemoryExpressionAtomVariableMap {
 		err = WriteStringToWriter(writer, key)
 		if err != nil {
@@ -989,6 +1000,7 @@ func (cat *Catalog) WriteCatalogToWriter(writer io.Writer) error {
 			}
 		}
 	}
+	} // verif hook: end of block opened above
 
 	return nil
 }
